@@ -22,7 +22,7 @@ EXPLANATION = (
     "C03.11 in free and dispose_chunk every path after `self.top = p` tests p == dv and clears dv/dvsize when it holds (a chunk merged into top is retired as designated victim). "
     "C03.12 insert_large_chunk clears both child pointers of the inserted chunk on every path (also for a chunk that only joins a same-size ring). "
     "C03.13 a chunk found by its address is unlinked only after it was compared with dv (and top, for a following chunk) and found free; C03.14 the two directions of a chunk link (next/prev, child/parent) are written together. "
-    "C03.15 every split / no-split decision compares the remainder with MIN_CHUNK_SIZE. "
+    "C03.15 every split / no-split decision compares the remainder with MIN_CHUNK_SIZE. C03.16 sys_alloc extends top in place only for the segment that holds top. "
     "NOT decided: alignment, disjointness and intactness of live blocks - invariants of the bin/tree/segment shape over call histories (the module's own check_malloc_state is a run-time checker); no structural rule in reach establishes them.")
 ASSUMPTIONS = ["dlmalloc's heap-shape invariants hold (not established here)", "MUNMAP returns 0 or -errno"]
 
@@ -495,6 +495,25 @@ def run_one(ck, prog):
                         ck.ob("C03.15", f"{p15.split('::')[-1]}|split-threshold-is-min-chunk-size|{canon(xs)[:60]}", isinstance(mcs, int) and thr >= mcs, fn=p15, site=c15.site(sb),
                               detail=f"a remainder {show(xs)[:80]} of {thr} bytes already counts as a chunk of its own; that is allowed only from MIN_CHUNK_SIZE ({mcs}) bytes on")
     ck.floor("C03.15", "split decisions", n_split, 5)
+
+    # ---- C03.16 top grows in place only inside its own segment: the in-place extension (`init_top(self.top, ..)` after `sp.size += ..`)
+    # happens only for the segment that holds top - appending fresh memory to another segment while top sits elsewhere makes top run past
+    # the end of its own segment, over memory the allocator does not own
+    sa16 = prog.fns.get(DL + "sys_alloc")
+    if ck.anchor("C03.16", "sys_alloc", sa16):
+        c16 = prog.ctx(sa16)
+        n16 = 0
+        for bb, t in c16.cfg.calls(lambda t: t.get("callee") == DL + "init_top"):
+            a = c16.args(bb)
+            if len(a) < 3 or not (mentions(a[1], c16.prov, lambda z: z[0] == "field" and z[2] == "top") and not mentions(a[1], c16.prov, lambda z: z[0] == "call")):
+                continue
+            n16 += 1
+            fs = panics.dominating_facts(c16, bb)
+            holds = any(f[0] == "truth" and f[2] is True and isinstance(f[1], tuple) and f[1][0] == "call" and (f[1][1] or "").endswith("Segment::holds") and
+                        mentions(f[1], c16.prov, lambda z: z[0] == "field" and z[2] == "top") for f in fs)
+            ck.ob("C03.16", "in-place-growth-only-in-the-segment-that-holds-top", holds, fn=sa16["path"], site=c16.site(bb),
+                  detail="top is extended in place without `Segment::holds(sp, self.top)` having been established for the segment that grew")
+        ck.floor("C03.16", "in-place extensions of top in sys_alloc", n16, 1)
 
     # ---- C03.8 a failed in-place resize leaves the heap untouched ------------------------------------------------------------------------------
     trc = prog.fns.get(DL + "try_realloc_chunk")
